@@ -171,8 +171,8 @@ func c10Sess(c *Ctx, cname string, key, iv []byte, spare, thr int, rd string, ac
 		for _, cn := range ends {
 			cn.SetThreshold(thr)
 		}
-		got := map[byte][]pk.Packet{}
-		recv := map[byte]*pk.Packet{'a': {}, 'b': {}} // reused receivers
+		got := map[byte][]c10Kept{}
+		recv := map[byte]*pk.Packet{'a': {}, 'b': {}} // reused receivers ("a<=": read into it, keep a copy)
 		for i, st := range script {
 			who := st[0]
 			cn := ends[who]
@@ -184,12 +184,18 @@ func c10Sess(c *Ctx, cname string, key, iv []byte, spare, thr int, rd string, ac
 					return
 				}
 			case st[1] == '<':
+				// "a<": into its own Packet value, which the receiver keeps while all later traffic passes;
+				// "a<=": into the end's reused Packet value
+				own := st != string(who)+"<="
 				p := recv[who]
+				if own {
+					p = new(pk.Packet)
+				}
 				if err := cn.ReadPacket(p); err != nil {
 					obs = fmt.Sprintf("err step=%d", i)
 					return
 				}
-				got[who] = append(got[who], pk.Packet{ID: p.ID, Data: append([]byte(nil), p.Data...)})
+				got[who] = append(got[who], c10Keep(p, own))
 			case st[1] == 'C':
 				be, _ := c10Block(cname, key)
 				bd, _ := c10Block(cname, key)
@@ -205,7 +211,9 @@ func c10Sess(c *Ctx, cname string, key, iv []byte, spare, thr int, rd string, ac
 				}
 			}
 		}
-		obs = "ok a=" + c10PktsString(got['a']) + " b=" + c10PktsString(got['b']) + " keybuf=" + kb
+		la, ca := c10KeptString("a", got['a'])
+		lb, cb := c10KeptString("b", got['b'])
+		obs = "ok a=" + la + " b=" + lb + " keybuf=" + kb + ca + cb
 	})
 	if res != "" {
 		obs = res
@@ -274,6 +282,9 @@ func c10SessPacket(c *Ctx, thr int) string {
 	switch c.R.Intn(6) {
 	case 0:
 		n = 0
+		if c.R.Intn(6) == 0 {
+			n = []int{4096, 32768}[c.R.Intn(2)] - 3 + c.R.Intn(6) // across the 4 KiB / 32 KiB boundaries
+		}
 	case 1, 2:
 		n = t - 3 + c.R.Intn(6)
 	case 3:
@@ -305,7 +316,11 @@ func c10Script(c *Ctx, thr int) []string {
 		pend[to]++
 	}
 	read := func(who byte) {
-		s = append(s, string(who)+"<")
+		if c.R.Intn(4) == 0 {
+			s = append(s, string(who)+"<=") // into the reused Packet value
+		} else {
+			s = append(s, string(who)+"<") // into its own Packet value, kept to the end
+		}
 		pend[who]--
 	}
 	drain := func(who byte) {
@@ -401,8 +416,8 @@ func genC10b(c *Ctx) {
 	}
 
 	// 8. login-like sessions: the cipher is switched on in mid-stream
-	for _, thr := range []int{-1, 0, 64, 256} {
-		for i := 0; i < c.N(16, 160); i++ {
+	for _, thr := range []int{-1, 0, 1, 64, 256} {
+		for i := 0; i < c.N(14, 140); i++ {
 			cn := "aes"
 			if i%8 == 7 {
 				cn = c10Ciphers[1+c.R.Intn(3)]
